@@ -412,6 +412,19 @@ class World:
             return r
         self.ctor_models[clsname] = make
 
+    def delitem_model(self, obj, idx, it, node):
+        if isinstance(obj, dict) and not S.is_sym(idx):
+            if idx not in obj:
+                it.raise_('KeyError', idx, node=node)
+            del obj[idx]
+            return
+        if isinstance(obj, SMapCell):
+            if not it.branch(obj.m.has(idx)):
+                it.raise_('KeyError', idx, node=node)
+            obj.delete(idx)
+            return
+        raise Unsupported('del item of %r' % (obj,))
+
     def unpack_model(self, v, n, it, node):
         if isinstance(v, SVal):
             # an opaque value unpacks only if it is an iterable of n items;
